@@ -45,7 +45,7 @@ def run_worker(modname, inst, excluded, witness):
     env["PYTHONHASHSEED"] = "0"
     env.setdefault("TERM", "xterm-256color")
     t0 = time.time()
-    hard = inst["timeout"] * 2 + 90
+    hard = int(inst["timeout"] * 1.4) + 60
     try:
         cp = subprocess.run(cmd, capture_output=True, text=True, timeout=hard, env=env, cwd=ROOT)
         out, err, rc = cp.stdout, cp.stderr, cp.returncode
@@ -87,9 +87,22 @@ def safe_concrete(mod, fn, params, args):
     """run the concrete twin; an exception escaping from curtsies code while the twin observes the result is
     a failure of the real code (the properties give it no licence to raise there); one from our own code is
     a harness problem"""
+    import signal
     import traceback
+
+    class _Hang(BaseException):
+        pass
+
+    def _alarm(signum, frame):
+        raise _Hang()
+
+    old = signal.signal(signal.SIGALRM, _alarm)
+    signal.alarm(120)
     try:
         return mod.concrete(fn, params, args)
+    except _Hang:
+        return {"ok": False, "observed": "the real code did not return within 120 s on this input", "expected": "termination",
+                "call": "%s%r" % (fn, tuple(args))}
     except Exception as ex:
         tb = traceback.extract_tb(ex.__traceback__)
         inner = tb[-1].filename if tb else ""
@@ -98,6 +111,9 @@ def safe_concrete(mod, fn, params, args):
             return {"ok": False, "observed": "raised %r at %s" % (ex, where), "expected": "no exception",
                     "call": "%s%r" % (fn, tuple(args))}
         return {"ok": None, "note": "harness exception %r at %s" % (ex, where), "harness_error": True}
+    finally:
+        signal.alarm(0)
+        signal.signal(signal.SIGALRM, old)
 
 
 class Tracer:
